@@ -279,26 +279,63 @@ def gen_sweep_case(run_seed: int, tier: str, j: int) -> dict[str, Any]:
     once per direction - including sites that are passed only once or twice per call, which a
     step-uniform random scheduler almost never hits.
     """
-    w = sub_rng(run_seed, "workload")
+    # documents and options are fixed per lap so that the site ordering is the same in every run of
+    # a lap: each distinct site is then visited exactly once per direction and granularity
     docs = [corpus.PROBE_ALL, corpus.PROBE_ALL_B]
-    if w.random() < 0.3:
-        docs[w.randrange(2)] = corpus.gen_doc(w, 6)
-    base = corpus.gen_options(w, allow_plaintext=False)
-    base["plaintext"] = False
-    o2 = dict(base) if w.random() < 0.6 else dict(corpus.gen_options(w, allow_plaintext=False), plaintext=False)
-    threads = [[{"api": "reformat_text", "text": docs[0], "kw": base}], [{"api": "reformat_text", "text": docs[1], "kw": o2}]]
-    # call / return / line (line events only in flowmark's formats/ and linewrapping/: a window
-    # between two lines of one function has no call event inside it)
-    gran = ["call", "return", "line"][(j // 2) % 3]
-    policy = {"kind": "sweep", "x": j % 2, "site_number": j // 6, "seed": w.getrandbits(32)}
+    pattern = ["call", "call", "return"] if tier == "quick" else ["call", "return", "line"]
+    half = j // 2
+    cycle, pos = divmod(half, len(pattern))
+    gran = pattern[pos]
+    per_cycle = pattern.count(gran)
+    site_number = cycle * per_cycle + pattern[:pos].count(gran)
+    lap = site_number // 700  # (more than the number of distinct sites of either document)
+    base = dict(SWEEP_OPTS[lap % len(SWEEP_OPTS)])
+    threads = [[{"api": "reformat_text", "text": docs[0], "kw": base}], [{"api": "reformat_text", "text": docs[1], "kw": dict(base)}]]
+    policy = {"kind": "sweep", "x": j % 2, "site_number": site_number, "seed": run_seed & 0xFFFFFFFF}
     est = sum(len(d) for d in docs) * {"call": 5, "return": 10, "line": 20}[gran]
     return {"check": CHECK, "run_seed": run_seed, "shape": "site_sweep", "epochs": [{"threads": threads}], "policy": policy, "faults": [], "granularity": gran, "est_steps": est, "step_cap": 0}
+
+
+SWEEP_OPTS = [
+    {"width": 88, "plaintext": False, "semantic": True, "cleanups": True, "smartquotes": True, "ellipses": True, "list_spacing": "preserve"},
+    {"width": 40, "plaintext": False, "semantic": False, "cleanups": False, "smartquotes": False, "ellipses": False, "list_spacing": "loose"},
+    {"width": 60, "plaintext": False, "semantic": True, "cleanups": False, "smartquotes": True, "ellipses": False, "list_spacing": "tight"},
+]
+
+
+def gen_long_history_case(run_seed: int, tier: str) -> dict[str, Any]:
+    """
+    One thread, several hundred calls on small distinct documents (untraced, so cheap), with probe
+    documents in between: state that needs MANY calls to show (a bounded cache evicting, a pool
+    recycling objects, a counter wrapping) gets its many calls.
+    """
+    w = sub_rng(run_seed, "workload")
+    base = corpus.gen_options(w, allow_plaintext=False)
+    base["plaintext"] = False
+    n = w.choice([140, 300, 520])
+    calls: list[dict[str, Any]] = []
+    for i in range(n):
+        r = w.random()
+        if i % 40 == 39:
+            text = w.choice(corpus.PROBE_DOCS)
+        elif r < 0.5:
+            text = f"Note {i}: " + corpus.plain_sentence(w) + " " + corpus.plain_sentence(w) + "\n"
+        elif r < 0.8:
+            text = corpus.gen_sentence_mix(w)
+        else:
+            text = f"- item {i}\n- `code{i}` and [l{i}](https://e.x/{i})\n\n" + corpus.plain_sentence(w) + "\n"
+        o = dict(base) if w.random() < 0.85 else dict(corpus.gen_options(w, allow_plaintext=False), plaintext=False)
+        calls.append({"api": "reformat_text", "text": text, "kw": o})
+    calls.append({"api": "reformat_text", "text": corpus.PROBE_ALL, "kw": dict(base)})
+    return {"check": CHECK, "run_seed": run_seed, "shape": "long_history", "untraced": True, "epochs": [{"threads": [calls]}], "policy": {"kind": "none"}, "faults": [], "granularity": "call", "est_steps": 1000, "step_cap": 0}
 
 
 def gen_case(run_seed: int, tier: str, index: int | None = None) -> dict[str, Any]:
     if index is not None and index % SWEEP_EVERY == SWEEP_EVERY - 1:
         return gen_sweep_case(run_seed, tier, index // SWEEP_EVERY)
-    shape = sub_rng(run_seed, "shape").choices(["mixed", "abort_probe", "history_probe"], [65, 20, 15])[0]
+    shape = sub_rng(run_seed, "shape").choices(["mixed", "abort_probe", "history_probe", "long_history"], [63, 20, 15, 2])[0]
+    if shape == "long_history":
+        return gen_long_history_case(run_seed, tier)
     if shape != "mixed":
         return gen_probe_case(run_seed, tier, shape)
     w = sub_rng(run_seed, "workload")
@@ -594,6 +631,12 @@ class TargetedNamed(sched.Policy):
             return d["x"]
         return None
 
+    def pick(self, step: int, ready: list[int]) -> int:
+        # the thread to be parked must run first (otherwise the other one has already finished)
+        if self.back_at is None and self.d["x"] in ready:
+            return self.d["x"]
+        return ready[0]
+
 
 class PerEpoch(sched.Policy):
     """Delegates to a per-epoch policy (used for targeted runs, where each epoch has its own target)."""
@@ -624,12 +667,15 @@ def run_case(env: Env, case: dict[str, Any], want_trace: bool = False) -> dict[s
     results: list[dict[str, Any]] = []
     resolved_targets: list[dict[str, Any]] = []
 
+    untraced = bool(case.get("untraced"))
+
     def make_body(ep_i: int, calls: list[dict[str, Any]]) -> Any:
         def body(sc: sched.Scheduler, tid: int, tracer: Any) -> None:
             for ci, c in enumerate(calls):
                 sc.begin_call(tid, ci)
                 start_step = sc.step
-                sys.settrace(tracer)
+                if not untraced:
+                    sys.settrace(tracer)
                 try:
                     try:
                         out: tuple[str, str] = ("ok", exec_call(c))
